@@ -119,6 +119,10 @@ func main() {
 		cmdDepth(os.Args[2:])
 	case "race":
 		cmdRace(os.Args[2:])
+	case "migrate":
+		cmdMigrate(os.Args[2:])
+	case "grpc":
+		cmdGrpc(os.Args[2:])
 	default:
 		fmt.Fprintln(os.Stderr, "unknown command", os.Args[1])
 		os.Exit(2)
